@@ -67,7 +67,7 @@ func (fr *frame) doGo(c *ssa.CallCommon) {
 		args = append(args, fr.get(a))
 	}
 	in.spawn(func() {
-		top := &frame{in: in, fn: fr.fn, locals: map[ssa.Value]Value{}}
+		top := &frame{in: in, fn: fr.fn, locals: newLocals(in.env.info(fr.fn))}
 		top.callValue(c, fv, recv, args)
 	})
 }
